@@ -18,15 +18,16 @@ import (
 // logging pauses and the request is repeated until it equals the matching
 // entries among the last N logged — the reference ring decides every answer.
 
-// splitCombos: the 12 (owner,type) combinations that Log uses, split by f.
+// splitCombos: the 20 (owner,type) combinations that Log uses (owners nil, A,
+// B, C x types 0, 1, 2, 4, 8), split by f. An entry logged with a nil owner is
+// on the non-matching side of every request that names an owner, one logged
+// with type 0 on the non-matching side of every request that names a type.
 func splitCombos(f FP) (match, non []ent) {
-	for o := 1; o <= 3; o++ {
-		for _, t := range logTypes {
-			if f.matches(o, t) {
-				match = append(match, ent{o, t})
-			} else {
-				non = append(non, ent{o, t})
-			}
+	for x := 0; x < nCombos; x++ {
+		if e := combo(x); f.matches(e.o, e.t) {
+			match = append(match, e)
+		} else {
+			non = append(non, e)
 		}
 	}
 	return
@@ -177,6 +178,11 @@ type repVariant struct {
 var repVariants = []repVariant{
 	{"owner-selective", FP{1, 0}, ent{1, 1}, ent{2, 1}, FP{0, 0}},
 	{"type-selective", FP{0, 2}, ent{2, 2}, ent{2, 1}, FP{2, 0}},
+	// the non-matching entry is logged with a nil owner / with type 0: it is in
+	// the ring like any other entry and only a request with a nil owner / type 0
+	// (the other request) returns it
+	{"owner-selective, others logged with a nil owner", FP{1, 0}, ent{1, 1}, ent{0, 1}, FP{0, 1}},
+	{"type-selective, others logged with type 0", FP{0, 2}, ent{2, 2}, ent{2, 0}, FP{2, 0}},
 }
 
 // repHistory builds the case for the op string w over "mxFA".
@@ -198,7 +204,7 @@ func repHistory(n int, v *repVariant, w []byte) *Case {
 	return &Case{Kind: "seq", N: n, Logs: encodeLogs(es), Filters: fl, Desc: v.name + " " + string(w)}
 }
 
-// TestEnumRepeat: for capacities 1..3 (thorough 1..4), two request variants,
+// TestEnumRepeat: for capacities 1..3 (thorough 1..4), four request variants,
 // EVERY history of K operations (quick 6, thorough 8) over the alphabet
 //
 //	m = Log an entry that matches the request     x = Log one that does not
@@ -249,5 +255,5 @@ func TestEnumRepeat(t *testing.T) {
 			}
 		}
 	}
-	hx.Exhaustive(fmt.Sprintf("capacities 1..%d x 2 request variants (owner-selective, type-selective) x every history of %d operations over {Log matching, Log non-matching, the request repeated until it settles, another request}: %d histories, every prefix judged", maxN, K, maxN*len(repVariants)*total))
+	hx.Exhaustive(fmt.Sprintf("capacities 1..%d x %d request variants (owner-selective, type-selective, each with ordinary non-matching entries and with non-matching entries logged with a nil owner / type 0) x every history of %d operations over {Log matching, Log non-matching, the request repeated until it settles, another request}: %d histories, every prefix judged", maxN, len(repVariants), K, maxN*len(repVariants)*total))
 }
